@@ -56,10 +56,9 @@ TRUSTED = [
     "model (property C24); the harness computes it independently of porepy and the comparison checks the code against it",
     "MixedDimensionalVariable / Variable constructors are modelled only through the ids they consume and the "
     "overlapping-domain assertion",
-    "error kinds of malformed calls are transcribed as observed, including two quirks of the code: dofs_of/projection_to raise "
-    "AssertionError instead of the documented ValueError for an unregistered variable whenever some variable name lives on both "
-    "subdomains and interfaces (the message formats str(self), whose __str__ asserts one domain kind per name), and a create call "
-    "that repeats a grid or names a grid outside the md-grid raises only after having registered variables",
+    "error kinds of malformed calls are transcribed as observed, including one quirk of the code: a create call that repeats a "
+    "grid or names a grid outside the md-grid raises only after having registered variables (dofs_of/projection_to raise the "
+    "documented ValueError for an unregistered variable, also when a name lives on both subdomains and interfaces: corpus case 01)",
 ]
 EXPLANATION = ("FULL: the model is the state machine (_variables, _variable_numbers in dict order, _variable_num_dofs, solution "
                "storage) with every anchored method transcribed, including partial effects of failing calls. Theorems: the layout "
